@@ -130,10 +130,64 @@ def module_grid():
     return out
 
 
+def query_grid():
+    """C17: one scenario with names that are prefixes of each other bound by the same owner, two providers, a
+    repeated context; after every step of interest every query kind is asked through both interfaces
+    (existing and non-existing arguments, batch numbers 0..3)."""
+    O2 = "0a" * 20
+    cid = ctx_id(0xC17)
+    r0, r1 = req_id(0xC17, 1, 1, 0), req_id(0xC17, 1, 1, 1)
+
+    def queries():
+        qs = []
+        for via in ("grpc", "legacy"):
+            for name in ("a", "a-b", "ab", "svc", "zz"):
+                qs.append(f"query via={via} kind=definition name={name}")
+                qs.append(f"query via={via} kind=bindings svc={name} owner=-")
+                for o in (O1, O2, C1):
+                    qs.append(f"query via={via} kind=bindings svc={name} owner={o}")
+                for pv in (P1, P2, C1):
+                    qs.append(f"query via={via} kind=binding svc={name} prov={pv}")
+                    qs.append(f"query via={via} kind=requests svc={name} prov={pv}")
+            for o in (O1, O2, C1, P1):
+                qs.append(f"query via={via} kind=withdraw owner={o}")
+                qs.append(f"query via={via} kind=fees prov={o}")
+            for c in (cid, ctx_id(0xC18)):
+                qs.append(f"query via={via} kind=context ctx={c}")
+                for b in (0, 1, 2, 3):
+                    qs.append(f"query via={via} kind=requests_by_ctx ctx={c} batch={b}")
+                    qs.append(f"query via={via} kind=responses ctx={c} batch={b}")
+            for r in (r0, r1, req_id(0xC17, 2, 5, 0), req_id(0xC18, 1, 1, 0)):
+                qs.append(f"query via={via} kind=request req={r}")
+                qs.append(f"query via={via} kind=response req={r}")
+            qs.append(f"query via={via} kind=params")
+        return qs
+
+    ops = [genesis(), f"fund acct={O1} amt=1000000", f"fund acct={O2} amt=1000000", f"fund acct={C1} amt=100000",
+           f"define name=a author={O1} schema=ok", f"define name=a-b author={O1} schema=ok", f"define name=ab author={O2} schema=ok",
+           f"bind svc=a prov={P1} owner={O1} dep=10000 price=5stake promT=- promV=- qos=1",
+           f"bind svc=a-b prov={P1} owner={O1} dep=10000 price=6stake promT=- promV=- qos=1",
+           f"bind svc=a prov={P2} owner={O2} dep=10000 price=7stake promT=- promV=- qos=1",
+           f"bind svc=ab prov={P2} owner={O2} dep=10000 price=8stake promT=- promV=- qos=1",
+           f"setwd owner={O1} addr={C1}"]
+    ops += queries()
+    ops.append(f"call tx={tx(0xC17)} idx=0 svc=a provs={P1},{P2} cons={C1} cap=100 timeout=3 super=0 rep=1 freq=4 total=3 input=ok")
+    ops.append("endblock dt=5000000000")
+    ops += queries()                                    # both requests pending
+    ops.append(f"respond req={r0} prov={P1} code=200 out=valid")
+    ops += queries()                                    # one answered (stored, no longer pending), one pending
+    ops += ["endblock dt=5000000000"] * 3
+    ops += queries()                                    # batch expired, records cleaned, earnings present
+    ops += ["endblock dt=5000000000"] * 2
+    ops += queries()                                    # second batch in flight
+    return [("grid:query", ops)]
+
+
 GRIDS = {
     "lifecycle": lambda: lifecycle_grid() + lifecycle_grid(T=2, F=2, total=-1, horizon=7),
     "respond": respond_grid,
     "module": module_grid,
+    "query": query_grid,
 }
 
 # which grids each property runs
@@ -141,4 +195,5 @@ FOR_PROPERTY = {
     "C01": ["respond"], "C02": ["respond", "lifecycle"], "C04": ["respond"], "C08": ["respond"],
     "C09": ["lifecycle"], "C10": ["lifecycle"], "C11": ["lifecycle", "respond"], "C12": ["module", "respond"],
     "C16": ["lifecycle", "respond"], "C06": ["respond"], "C18": ["respond"], "C20": ["lifecycle"],
+    "C17": ["query"],
 }
